@@ -54,7 +54,7 @@ def main():
                     rels.append(f'{n}/{k}')
     props = claimed()
     bad = 0
-    with ThreadPoolExecutor(6) as ex:
+    with ThreadPoolExecutor(int(os.environ.get("TWIN_THREADS", "6"))) as ex:
         for rel, out in ex.map(lambda r: one(base, r, props), rels):
             if out:
                 bad += 1
